@@ -1235,7 +1235,13 @@ func genC18(g *G, sc *Scenario, tier string) {
 			sc.Ops = append(sc.Ops, Op{K: "batch", DS: ds, Ents: ents})
 		}
 	}
-	sc.Ops = append(sc.Ops, Op{K: "runFix", S: "job1"})
+	first := Op{K: "runFix", S: "job1"}
+	if g.P(0.35) {
+		// a client writes to a dependency (or the main dataset) while the very first run - a full sync - is between two pages
+		ds := g.Pick(endpoints)
+		first.M = map[string]any{"midWrite": map[string]any{"at": g.Range(1, 2), "ds": ds, "ents": []Ent{mk(ds, g.Pick(ids[ds]))}}}
+	}
+	sc.Ops = append(sc.Ops, first)
 	for rd := g.Range(1, 4); rd > 0; rd-- {
 		for w := g.Range(1, 3); w > 0; w-- {
 			ds := g.Pick(writable)
